@@ -159,6 +159,16 @@ UNITS += [
       domain="prop lists of length 3: listener around another prop, a spread in between, three class values", mem_gb=20, timeout=3600, unwindset={"memcmp.0": 12}, assumes=[A_DROP, A_CLONE]),
 ]
 
+UNITS += [
+    U("U-dirpriv", ["directive::is_identifier_name", "directive::lowercase_first_letter"], ["dirpriv_is_identifier_name", "dirpriv_lowercase_first_letter", "dirpriv_lowercase_first_letter_multibyte"], ["C04", "C07", "C08"],
+      domain="private helpers of directive.rs: all ASCII strings of length <= 3 (identifier-name test; first-letter lower-casing incl. the empty name) and a name starting with a 2-byte character: complete over that domain", mem_gb=4, timeout=600, assumes=[A_DROP]),
+    U("U-fragname", ["is_fragment_name"], ["fragment_name_rule"], ["C02", "C10"], completeness="bounded", domain="names of length <= 11 over the alphabet `_Fragment12x`", mem_gb=6, timeout=600),
+    U("U-regexvisit", ["options::RegexVisitor::visit_str", "options::RegexVisitor::visit_string"], ["regex_visit_valid_str", "regex_visit_invalid_str", "regex_visit_valid_string", "regex_visit_invalid_string"], ["C14"],
+      completeness="bounded", domain="2 valid and 2 invalid patterns x {visit_str, visit_string}; `regex::Regex::new` by the stand-in's contract (callee assumed)", mem_gb=4, timeout=600, assumes=[A_DROP, A_FMT]),
+    U("U-wrap", ["VueJsxTransformVisitor::wrap_children"], ["wrap_no_slots"], ["C13"], completeness="bounded", domain="no v-slots x symbolic options and slot flag", mem_gb=6, timeout=900, assumes=[A_DROP, A_CLONE, A_FMT]),
+    U("U-wrap-slots", ["VueJsxTransformVisitor::wrap_children"], ["wrap_object_slots", "wrap_expr_slots"], ["C13"], completeness="bounded", tier="thorough", domain="v-slots {object literal, expression} x symbolic options and slot flag", mem_gb=16, timeout=2400, assumes=[A_DROP, A_CLONE, A_FMT]),
+]
+
 CANARY = dict(harness="canary_must_fail", timeout=300, mem_gb=4)
 
 PROPERTIES = {}
